@@ -17,7 +17,7 @@ from tensorly.regression.tucker_regression import TuckerRegressor
 from tensorly.regression.cp_plsr import CP_PLSR
 
 from vlib import gen, ref
-from vlib.engine import SubCheck, check, discard, Fail
+from vlib.engine import SubCheck, check, discard, fail, Fail
 from vlib.cmp import assert_shape, finite, close, as_array
 
 PROPERTY = "C19"
@@ -207,10 +207,23 @@ def _plsr_data(case):
     return X, Y, Xnew
 
 
+def _support(X):
+    """number of components the centred data can support: every deflation X(I - w w^T) lowers the rank of the
+    centred sample-by-feature matrix by at most one, so rank-many components see non-zero data"""
+    Xc = (X - X.mean(axis=0)).reshape(X.shape[0], -1)
+    return int(min(X.shape[0] - 1, np.linalg.matrix_rank(Xc)))
+
+
 def _plsr_fit(case, X, Y):
     kw = {} if case["iters"] is None else {"n_iter_max": case["iters"]}
     e = CP_PLSR(case["ncomp"], **kw)
-    e.fit(X.copy(), Y.copy())
+    try:
+        e.fit(X.copy(), Y.copy())
+    except np.linalg.LinAlgError:
+        # exactly exhausted data (integer X): the loading is 0/0 and lstsq on the NaN scores raises
+        if case["ncomp"] > _support(X):
+            discard("components not supported by the centred data (fit raised LinAlgError)")
+        raise
     return e
 
 
@@ -223,7 +236,7 @@ def _bcast(a, shape, clause):
         raise Fail(clause, f"shape {a.shape} does not broadcast to {tuple(shape)}")
 
 
-def _plsr_attrs(e, case, tag="plsr"):
+def _plsr_attrs(e, case, tag="plsr", X=None):
     """exposed attributes, shape-checked; discards fits with non-finite loadings"""
     n, sides, c = case["n"], tuple(case["sides"]), case["ncomp"]
     p = 1 if case["p"] is None else case["p"]
@@ -235,7 +248,9 @@ def _plsr_attrs(e, case, tag="plsr"):
     xm = _bcast(e.X_mean_, sides, f"{tag}/X_mean_/shape")
     ym = _bcast(e.Y_mean_, (p,), f"{tag}/Y_mean_/shape")
     if not all(np.all(np.isfinite(a)) for a in XF + YF + [coef]):
-        discard("non-finite loadings (components not supported by the centred data)")
+        if X is None or case["ncomp"] > _support(X):
+            discard("non-finite loadings (components not supported by the centred data)")
+        fail(f"{tag}/finite", "non-finite factors although the centred data support the requested components")
     return XF, YF, coef, xm, ym
 
 
@@ -266,7 +281,7 @@ def _plsr_labels(case, extra=()):
 def o_plsr_scores(case):
     X, Y, Xnew = _plsr_data(case)
     e = _plsr_fit(case, X, Y)
-    XF, YF, coef, xm, ym = _plsr_attrs(e, case)
+    XF, YF, coef, xm, ym = _plsr_attrs(e, case, X=X)
     sx = max(float(np.max(np.abs(XF[0]))), 1e-300)
     sy = max(float(np.max(np.abs(YF[0]))), 1e-300)
     t = e.transform(X.copy())
@@ -286,7 +301,7 @@ def o_plsr_scores(case):
 def o_plsr_unit(case):
     X, Y, Xnew = _plsr_data(case)
     e = _plsr_fit(case, X, Y)
-    XF, YF, coef, xm, ym = _plsr_attrs(e, case)
+    XF, YF, coef, xm, ym = _plsr_attrs(e, case, X=X)
     for i, L in enumerate(XF[1:], start=1):
         nr = np.sqrt(np.sum(L * L, axis=0))
         close(nr, np.ones_like(nr), f"plsr/unit-norm/X_factors[{i}]", rel=REL, scale=1.0)
@@ -303,7 +318,7 @@ def o_plsr_exposed(case):
     """predict / transform on new data follow from the exposed attributes"""
     X, Y, Xnew = _plsr_data(case)
     e = _plsr_fit(case, X, Y)
-    XF, YF, coef, xm, ym = _plsr_attrs(e, case)
+    XF, YF, coef, xm, ym = _plsr_attrs(e, case, X=X)
     p = 1 if case["p"] is None else case["p"]
     for tag, A in (("fresh", Xnew), ("train", X)):
         T = ref_scores(A - xm, XF[1:])
@@ -330,10 +345,10 @@ def o_plsr_shift(case):
     C = np.array(case["shiftX"], dtype=float).reshape(sides) / 4.0
     cy = np.array(case["shiftY"], dtype=float) / 4.0
     e1 = _plsr_fit(case, X, Y)
-    a = _plsr_attrs(e1, case)
+    a = _plsr_attrs(e1, case, X=X)
     Y2 = Y + (cy[0] if Y.ndim == 1 else cy)
     e2 = _plsr_fit(case, X + C, Y2)
-    b = _plsr_attrs(e2, case, "plsr/shifted")
+    b = _plsr_attrs(e2, case, "plsr/shifted", X=X)
     sx = max(float(np.max(np.abs(a[0][0]))), 1e-300)
     sy = max(float(np.max(np.abs(a[1][0]))), 1e-300)
     sc = max(float(np.max(np.abs(a[2]))), 1e-300)
@@ -353,9 +368,9 @@ def o_plsr_perm(case):
     X, Y, Xnew = _plsr_data(case)
     perm = np.random.RandomState(case["perm_seed"]).permutation(case["n"])
     e1 = _plsr_fit(case, X, Y)
-    a = _plsr_attrs(e1, case)
+    a = _plsr_attrs(e1, case, X=X)
     e2 = _plsr_fit(case, X[perm], Y[perm])
-    b = _plsr_attrs(e2, case, "plsr/permuted")
+    b = _plsr_attrs(e2, case, "plsr/permuted", X=X)
     sx = max(float(np.max(np.abs(a[0][0]))), 1e-300)
     sy = max(float(np.max(np.abs(a[1][0]))), 1e-300)
     sc = max(float(np.max(np.abs(a[2]))), 1e-300)
@@ -376,14 +391,14 @@ def o_plsr_perm(case):
 def subchecks(tier):
     subs = []
     for yk in ("scalar", "vector", "tensor"):
-        subs.append(SubCheck(f"cp/{yk}/predict", _reg_case("cp", yk, tier), o_reg_predict("cp"), quick=400, thorough=5000))
-        subs.append(SubCheck(f"cp/{yk}/weights", _reg_case("cp", yk, tier), o_reg_weights("cp"), quick=400, thorough=5000))
-    subs.append(SubCheck("tucker/scalar/predict", _reg_case("tucker", "scalar", tier), o_reg_predict("tucker"), quick=400, thorough=5000))
-    subs.append(SubCheck("tucker/scalar/weights", _reg_case("tucker", "scalar", tier), o_reg_weights("tucker"), quick=400, thorough=5000))
+        subs.append(SubCheck(f"cp/{yk}/predict", _reg_case("cp", yk, tier), o_reg_predict("cp"), quick=400, thorough=3000))
+        subs.append(SubCheck(f"cp/{yk}/weights", _reg_case("cp", yk, tier), o_reg_weights("cp"), quick=400, thorough=3000))
+    subs.append(SubCheck("tucker/scalar/predict", _reg_case("tucker", "scalar", tier), o_reg_predict("tucker"), quick=400, thorough=3000))
+    subs.append(SubCheck("tucker/scalar/weights", _reg_case("tucker", "scalar", tier), o_reg_weights("tucker"), quick=400, thorough=3000))
     for yk in ("yvec", "ymat"):
-        subs.append(SubCheck(f"plsr/{yk}/scores", _plsr_case(yk, tier), o_plsr_scores, quick=400, thorough=5000))
-        subs.append(SubCheck(f"plsr/{yk}/unit_norm", _plsr_case(yk, tier), o_plsr_unit, quick=400, thorough=5000))
-        subs.append(SubCheck(f"plsr/{yk}/exposed", _plsr_case(yk, tier), o_plsr_exposed, quick=400, thorough=5000))
-        subs.append(SubCheck(f"plsr/{yk}/shift", _plsr_case(yk, tier, metamorphic=True), o_plsr_shift, quick=400, thorough=5000))
-        subs.append(SubCheck(f"plsr/{yk}/permutation", _plsr_case(yk, tier, metamorphic=True), o_plsr_perm, quick=400, thorough=5000))
+        subs.append(SubCheck(f"plsr/{yk}/scores", _plsr_case(yk, tier), o_plsr_scores, quick=400, thorough=3000))
+        subs.append(SubCheck(f"plsr/{yk}/unit_norm", _plsr_case(yk, tier), o_plsr_unit, quick=400, thorough=3000))
+        subs.append(SubCheck(f"plsr/{yk}/exposed", _plsr_case(yk, tier), o_plsr_exposed, quick=400, thorough=3000))
+        subs.append(SubCheck(f"plsr/{yk}/shift", _plsr_case(yk, tier, metamorphic=True), o_plsr_shift, quick=400, thorough=3000))
+        subs.append(SubCheck(f"plsr/{yk}/permutation", _plsr_case(yk, tier, metamorphic=True), o_plsr_perm, quick=400, thorough=3000))
     return subs
